@@ -266,8 +266,14 @@ pub fn run_part<P: Property>(prop: &P, cfg: &Cfg) -> PartResult {
                     let mut runner = TestRunner::new(config);
                     let failed_here = std::cell::Cell::new(false);
                     let strategy = prop.strategy(tier);
+                    let no_shrink = std::cell::Cell::new(false);
                     let result = runner.run(&strategy, |case| {
                         if !failed_here.get() && shared.stop.load(Ordering::Relaxed) { return Ok(()); }
+                        // (a case that blocks costs seconds of wall-clock time per execution: it is reported as found, not shrunk)
+                        if no_shrink.get() { return Ok(()); }
+                        let blocked_runs = crate::sched::BLOCKED_RUNS.load(Ordering::Relaxed);
+                        if failed_here.get() && blocked_runs >= 3 { return Ok(()); }        // shrinking through blocking cases would take hours
+                        if blocked_runs >= 48 { return Ok(()); }                              // the search itself is drowning in blocked runs: conclude (inconclusive)
                         PROGRESS.fetch_add(1, Ordering::Relaxed);
                         write_inflight(cfg, prop.part(), w, &case);
                         let rep = prop.run_guarded(&case);
@@ -284,6 +290,7 @@ pub fn run_part<P: Property>(prop: &P, cfg: &Cfg) -> PartResult {
                                     Ok(())
                                 } else {
                                     if !failed_here.get() { note_first_violation(cfg, prop.part(), &case, signature, detail); }
+                                    if signature.contains("blocked-instead-of-returning") { no_shrink.set(true); }
                                     failed_here.set(true);
                                     shared.stop.store(true, Ordering::Relaxed);
                                     Err(TestCaseError::fail(signature.clone()))
